@@ -53,6 +53,11 @@ def run(ctx):
     for _ in range(ctx.budget(600, 30000)):
         texts.append(gen_text.random_text(rng, rng.randint(1, 14)))
     texts += pcommon.corpus()
+    # directive lines (dropped or passed on by the directive rule), plain and continued with backslash-newline, between tokens
+    for d in ("#warning first part", "#line 40 \"f.h\"", "# 7 \"g.h\" 2", "#pragma omp parallel", "#include <a.h>", "#  warning x", "#warning"):
+        for cont in ("", " \\\n  second part", " \\\n \\\n third", "\\\n"):
+            for pre in ("", "int a;\n", "/* c\n d */\n"):
+                texts.append(pre + d + cont + "\nint last;\nlong tail;\n")
     pfails = []
     for t in texts:
         try:
